@@ -113,11 +113,12 @@ func checkC13(p *core.Program, r *core.Report) {
 		"without common synchronisation. All locations two invocations can share are package-level variables, the handler value and the proving system it points to, and whatever those reach. " +
 		"(O13.1) in the in-repo functions reachable from the handler (call graph with interface resolution and encoding/json reflection callbacks; united with a whole-program VTA graph in the thorough tier) there is no store, map update or builtin write through a reference into shared memory that is not dominated by a held sync lock, " +
 		"and no shared reference is handed to code outside the repository other than an enumerated allow-list of read-only/synchronised callees; an object taken from a sync.Pool is not used after it was Put back; " +
-		"(O13.2) every function that writes a package-level variable is inventoried and unreachable from the handler, and in the CLI it cannot run after server.Run; " +
+		"(O13.4) a blocking acquire on a shared channel or lock is released on every exit, so no request's outcome can depend on which exits other requests took; (O13.2) every function that writes a package-level variable is inventoried and unreachable from the handler, and in the CLI it cannot run after server.Run; " +
 		"Decides race-freedom of in-repo code on shared state under every interleaving. Not decided: isolation inside groth16.Prove with a shared key and constraint system (trusted), nor that each response is the right one (C07/C09)."
 	r.Rule("O13.1", "no unsynchronised write through a reference into shared memory is reachable from the /prove handler")
 	r.Rule("O13.2", "writers of package-level variables are inventoried, unreachable from the handler, and cannot run after server.Run")
 	r.Rule("O13.3", "an object obtained from a sync.Pool is not used after it was returned to the pool")
+	r.Rule("O13.4", "every blocking acquire on a channel/lock shared by requests (semaphore send/receive, Lock) reachable from the handler is followed by its complementary operation on every path to every exit, error returns included; no request waits on a shared WaitGroup/Cond")
 	r.Trusted = append(r.Trusted, "Go memory model", "groth16.Prove is safe for concurrent use with a shared proving key and constraint system", "zerolog.Logger is safe for concurrent use", "net/http gives every request its own ResponseWriter and Request")
 	r.NotDecided = append(r.NotDecided, "races inside third-party libraries", "that each response is the correct one for its request (C07, C09)")
 
@@ -207,6 +208,8 @@ func checkC13(p *core.Program, r *core.Report) {
 
 	// O13.3 sync.Pool typestate
 	checkPoolUse(p, r, reach)
+	// O13.4 acquire/release pairing on shared synchronisation objects
+	checkSyncPairing(p, r, reach, sh)
 
 	// O13.2 writers inventory
 	gw := eff.GlobalWriters(g)
